@@ -48,7 +48,7 @@ class C02(core.Property):
           na, r = jnp.stack([2 * a0 + s, a1 - s]), a0
         else:
           na, r = jnp.stack([a0 + 1 / s, a1 + s]), 1 / s
-        return {'a': na, 'cnt': st['cnt'] + 1}, {'r': r}
+        return {'a': na, 'cnt': st['cnt'] + 1}, {'r': r, 'px': batch['x'] + a0}
       return step
 
     def final(shared, st):
@@ -78,7 +78,8 @@ class C02(core.Property):
     backend = ['jit', 'debug', 'pmap', 'pmap'][i % 4]
     return {'kind': rng.randrange(3), 'shared': rng.choice([1, 2, -1, 3]), 'clients': clients,
             'D': rng.randrange(1, min(8, self.ndev) + 1), 'backend': backend,
-            'with_step_result': rng.random() < 0.8, 'committed': rng.random() < 0.5}
+            'with_step_result': rng.random() < 0.8, 'committed': rng.random() < 0.5,
+            'shared2': rng.choice([None, -3, 5, 4])}
 
   def _gen_sched(self, rng):
     nt = rng.randrange(1, 4)
@@ -151,76 +152,97 @@ class C02(core.Property):
       with fec.for_each_client_backend(backend):
         if wsr:
           f = fec.for_each_client(self.init, step, self.final, with_step_result=True)
-          res = [(cid, out, srs) for cid, out, srs in f(shared, clients)]
         else:
-          f = fec.for_each_client(self.init, lambda s, b: step(s, b)[0], self.final)
-          res = [(cid, out, None) for cid, out in f(shared, clients)]
-    except Exception as e:  # the property says every backend yields the results
-      key = 'C02/pmap/unusable-api' if backend_name == 'pmap' and isinstance(e, AttributeError) else None
-      return Outcome(oracle_fail=f'backend {backend_name} (D={D}) raised {type(e).__name__}: {str(e)[:200]}',
-                     key=key, tags=(f'backend={backend_name}',), nontrivial=len(case['clients']) > 1)
-    # monitors: inputs stay valid and unchanged
-    try:
-      if not np.array_equal(np.asarray(shared['s']), snap_shared):
-        problems.append('shared input changed')
-      for (ci_s, bs_s), (_, bs, ci) in zip(snap, clients):
-        if not np.array_equal(np.asarray(ci['i']), ci_s):
-          problems.append('client input changed')
-        for b, b_s in zip(bs, bs_s):
-          if not np.array_equal(np.asarray(b['x']), b_s):
-            problems.append('client batch changed')
-    except RuntimeError as e:
-      problems.append(f'caller input invalidated after the call: {str(e)[:120]}')
-    ctx.count('input_validity_monitor')
+          f0 = fec.for_each_client(self.init, lambda s, b: step(s, b)[0], self.final)
+          f = lambda sh, cl: ((cid, out, None) for cid, out in f0(sh, cl))
+    except Exception as e:
+      return Outcome(oracle_fail=f'constructing backend {backend_name} raised {type(e).__name__}: {str(e)[:200]}',
+                     tags=(f'backend={backend_name}',))
+    impl, ans = {}, None
+    # the same function is called twice: the second call passes the SAME shared container with its
+    # leaf replaced in place and the SAME client batch/input objects (they must still be valid)
+    shared_vals = [case['shared']] + ([case['shared2']] if case.get('shared2') is not None else [])
+    for call_no, sval in enumerate(shared_vals):
+      if call_no > 0:
+        shared['s'] = jnp.float32(sval)
+        snap_shared = np.asarray(shared['s']).copy()
+      try:
+        res = [(cid, out, srs) for cid, out, srs in f(shared, clients)]
+      except Exception as e:  # the property says every backend yields the results
+        key = 'C02/pmap/unusable-api' if backend_name == 'pmap' and isinstance(e, AttributeError) else None
+        return Outcome(oracle_fail=f'backend {backend_name} (D={D}) call {call_no} raised {type(e).__name__}: {str(e)[:200]}',
+                       key=key, tags=(f'backend={backend_name}',), nontrivial=len(case['clients']) > 1)
+      # monitors: inputs stay valid and unchanged
+      try:
+        if not np.array_equal(np.asarray(shared['s']), snap_shared):
+          problems.append('shared input changed')
+        for (ci_s, bs_s), (_, bs, ci) in zip(snap, clients):
+          if not np.array_equal(np.asarray(ci['i']), ci_s):
+            problems.append('client input changed')
+          for bb, b_s in zip(bs, bs_s):
+            if not np.array_equal(np.asarray(bb['x']), b_s):
+              problems.append('client batch changed')
+      except RuntimeError as e:
+        problems.append(f'caller input invalidated after call {call_no}: {str(e)[:120]}')
+      ctx.count('input_validity_monitor')
 
-    # independent oracle: plain Python fold per client without jit
-    expect = {}
-    with jax.disable_jit():
-      for cid, bs, ci in mk():
-        st = self.init(shared, ci)
-        rs = []
-        for b in bs:
-          st, r = step(st, b)
-          rs.append(r)
-        expect[cid] = (self.final(shared, st), rs)
-    got_ids = [cid for cid, _, _ in res]
-    if sorted(got_ids) != sorted(expect):
-      problems.append(f'result ids {got_ids} != input ids {sorted(expect)}')
-    impl = {}
-    for cid, out, srs in res:
-      o = frac_list(out['o'])
-      rs = None if srs is None else [frac_list(r['r'])[0] for r in srs]
-      impl[cid] = (o, rs)
-      if cid in expect:
-        eo = frac_list(expect[cid][0]['o'])
-        er = [frac_list(r['r'])[0] for r in expect[cid][1]]
-        if o != eo:
-          problems.append(f'client {cid}: output {o} != sequential fold {eo}')
-        if rs is not None and rs != er:
-          problems.append(f'client {cid}: step results {rs} != sequential {er}')
-        if any(x != x for x in np.asarray(out['o']).tolist()):
-          problems.append(f'client {cid}: NaN in output')
+      # independent oracle: plain Python fold per client without jit, on fresh copies of the inputs
+      expect = {}
+      sh_ref = {'s': jnp.float32(sval)}
+      with jax.disable_jit():
+        for cid, bs, ci in mk():
+          st = self.init(sh_ref, ci)
+          rs = []
+          for bb in bs:
+            st, r = step(st, bb)
+            rs.append(r)
+          expect[cid] = (self.final(sh_ref, st), rs)
+      got_ids = [cid for cid, _, _ in res]
+      if sorted(got_ids) != sorted(expect):
+        problems.append(f'call {call_no}: result ids {got_ids} != input ids {sorted(expect)}')
+      impl = {}
+      for cid, out, srs in res:
+        o = frac_list(out['o'])
+        rs = None if srs is None else [frac_list(r['r'])[0] for r in srs]
+        impl[cid] = (o, rs)
+        if cid in expect:
+          eo = frac_list(expect[cid][0]['o'])
+          er = [frac_list(r['r'])[0] for r in expect[cid][1]]
+          if o != eo:
+            problems.append(f'call {call_no} client {cid}: output {o} != sequential fold {eo}')
+          if rs is not None and rs != er:
+            problems.append(f'call {call_no} client {cid}: step results {rs} != sequential {er}')
+          if srs is not None and len(srs) == len(expect[cid][1]):
+            for r_i, r_e in zip(srs, expect[cid][1]):
+              if frac_list(r_i['px']) != frac_list(r_e['px']):
+                problems.append(f'call {call_no} client {cid}: per-example step result differs from sequential')
+          if any(x != x for x in np.asarray(out['o']).tolist()):
+            problems.append(f'call {call_no} client {cid}: NaN in output')
 
-    # correspondence with the model
+      # correspondence with the model
+      mclients = [[cid, inp, batches] for cid, inp, batches in case['clients']]
+      if backend_name == 'pmap':
+        ans = ctx.drv.ask1('c02.pmap', kind, D, sval, mclients)
+      else:
+        ans = ctx.drv.ask1('c02.seq', kind, sval, mclients)
+      model = {m[0]: (m[1], m[2]) for m in ans}
+      if sorted(model) != sorted(impl):
+        corr.append(f'call {call_no}: model ids {sorted(model)} vs impl ids {sorted(impl)}')
+      for cid in impl:
+        if cid in model:
+          mo, mr = model[cid]
+          if [Fraction(x) for x in mo] != impl[cid][0]:
+            corr.append(f'call {call_no} client {cid}: model output {mo} vs impl {impl[cid][0]}')
+          if impl[cid][1] is not None and [Fraction(x) for x in mr] != impl[cid][1]:
+            corr.append(f'call {call_no} client {cid}: model step results {mr} vs impl {impl[cid][1]}')
+      if problems or corr:
+        break
     mclients = [[cid, inp, batches] for cid, inp, batches in case['clients']]
-    if backend_name == 'pmap':
-      ans = ctx.drv.ask1('c02.pmap', kind, D, case['shared'], mclients)
-    else:
-      ans = ctx.drv.ask1('c02.seq', kind, case['shared'], mclients)
-    model = {m[0]: (m[1], m[2]) for m in ans}
-    if sorted(model) != sorted(impl):
-      corr.append(f'model ids {sorted(model)} vs impl ids {sorted(impl)}')
-    for cid in impl:
-      if cid in model:
-        mo, mr = model[cid]
-        if [Fraction(x) for x in mo] != impl[cid][0]:
-          corr.append(f'client {cid}: model output {mo} vs impl {impl[cid][0]}')
-        if impl[cid][1] is not None and [Fraction(x) for x in mr] != impl[cid][1]:
-          corr.append(f'client {cid}: model step results {mr} vs impl {impl[cid][1]}')
     nbs = sorted({len(c[2]) for c in case['clients']})
     tags = (f'backend={backend_name}', f'kind={kind}', f'nclients={min(len(mclients), 6)}',
             f'mult_of_D={len(mclients) % D == 0}', f'batchcounts={"uniform" if len(nbs) <= 1 else "mixed"}',
-            f'zero_batch_client={any(len(c[2]) == 0 for c in case["clients"])}', f'wsr={wsr}', f'committed_shared={bool(case.get("committed"))}')
+            f'zero_batch_client={any(len(c[2]) == 0 for c in case["clients"])}', f'wsr={wsr}', f'committed_shared={bool(case.get("committed"))}',
+            f'second_call={case.get("shared2") is not None}')
     return Outcome(oracle_fail='; '.join(problems[:4]) or None, corr_fail='; '.join(corr[:3]) or None,
                    nontrivial=len(nbs) > 1, tags=tags,
                    detail={'impl': {k: [list(map(str, v[0])), None if v[1] is None else list(map(str, v[1]))]
